@@ -28,9 +28,9 @@ LP/TransformSound.vos LP/TransformSound.vok LP/TransformSound.required_vos: LP/T
 LP/OptTest.vo LP/OptTest.glob LP/OptTest.v.beautified LP/OptTest.required_vo: LP/OptTest.v LP/Cert.vo
 LP/OptTest.vio: LP/OptTest.v LP/Cert.vio
 LP/OptTest.vos LP/OptTest.vok LP/OptTest.required_vos: LP/OptTest.v LP/Cert.vos
-LP/OptTestSound.vo LP/OptTestSound.glob LP/OptTestSound.v.beautified LP/OptTestSound.required_vo: LP/OptTestSound.v LP/OptTest.vo LP/CertSound.vo
-LP/OptTestSound.vio: LP/OptTestSound.v LP/OptTest.vio LP/CertSound.vio
-LP/OptTestSound.vos LP/OptTestSound.vok LP/OptTestSound.required_vos: LP/OptTestSound.v LP/OptTest.vos LP/CertSound.vos
+LP/OptTestSound.vo LP/OptTestSound.glob LP/OptTestSound.v.beautified LP/OptTestSound.required_vo: LP/OptTestSound.v LP/OptTest.vo LP/CertSound.vo LP/User.vo
+LP/OptTestSound.vio: LP/OptTestSound.v LP/OptTest.vio LP/CertSound.vio LP/User.vio
+LP/OptTestSound.vos LP/OptTestSound.vok LP/OptTestSound.required_vos: LP/OptTestSound.v LP/OptTest.vos LP/CertSound.vos LP/User.vos
 LP/Driver.vo LP/Driver.glob LP/Driver.v.beautified LP/Driver.required_vo: LP/Driver.v LP/OptTest.vo
 LP/Driver.vio: LP/Driver.v LP/OptTest.vio
 LP/Driver.vos LP/Driver.vok LP/Driver.required_vos: LP/Driver.v LP/OptTest.vos
